@@ -175,7 +175,13 @@ impl TypeEnv {
         self.extern_types
             .entry(goml_name.clone())
             .or_insert_with(|| ExternType {
-                go_name: goml_name.clone(),
+                // the Go type is spelled like the goml declaration, without the goml package
+                // qualifier an extern type of a library carries (`Lib::Duration`)
+                go_name: goml_name
+                    .rsplit("::")
+                    .next()
+                    .unwrap_or(&goml_name)
+                    .to_string(),
                 package_path: None,
             });
     }
